@@ -421,8 +421,84 @@ impl ManyArgs for ManyArgsImpl {
     }
 }
 
+// an interface at version 1 whose closures (by reference, returned boxed) and nested trait object carry a type with a field
+// added in version 1: same version on both sides, so every hop must be the identity
+#[derive(savefile_derive::Savefile, Clone, Debug, PartialEq)]
+pub struct Labelled {
+    pub id: u32,
+    #[savefile_versions = "1.."]
+    pub label: String,
+    #[savefile_versions = "1.."]
+    pub weight: u16,
+}
+#[savefile_abi_exportable(version = 1)]
+pub trait LabelSink {
+    fn put(&mut self, l: Labelled) -> Labelled;
+}
+#[savefile_abi_exportable(version = 1)]
+pub trait V1Iface {
+    fn via_fn(&self, f: &dyn Fn(Labelled) -> Labelled, x: Labelled) -> Labelled;
+    fn via_fnmut(&self, f: &mut dyn FnMut(Labelled), x: Labelled);
+    fn via_sink(&self, s: &mut dyn LabelSink, x: Labelled) -> Labelled;
+    fn make_fn(&self) -> Box<dyn Fn(Labelled) -> Labelled>;
+}
+struct V1Impl;
+impl V1Iface for V1Impl {
+    fn via_fn(&self, f: &dyn Fn(Labelled) -> Labelled, x: Labelled) -> Labelled {
+        f(x)
+    }
+    fn via_fnmut(&self, f: &mut dyn FnMut(Labelled), x: Labelled) {
+        f(x)
+    }
+    fn via_sink(&self, s: &mut dyn LabelSink, x: Labelled) -> Labelled {
+        s.put(x)
+    }
+    fn make_fn(&self) -> Box<dyn Fn(Labelled) -> Labelled> {
+        Box::new(|mut l| {
+            l.label.push('!');
+            l
+        })
+    }
+}
+fn v1_payloads(fails: &mut Vec<Value>) {
+    let x = Labelled { id: 7, label: "héllo".to_string(), weight: 513 };
+    struct Keep(Vec<Labelled>);
+    impl LabelSink for Keep {
+        fn put(&mut self, l: Labelled) -> Labelled {
+            self.0.push(l.clone());
+            l
+        }
+    }
+    let run = |iface: &dyn V1Iface| -> Vec<Labelled> {
+        let mut seen = vec![];
+        let f = |l: Labelled| l;
+        seen.push(iface.via_fn(&f, x.clone()));
+        let mut got = None;
+        let mut g = |l: Labelled| got = Some(l);
+        iface.via_fnmut(&mut g, x.clone());
+        seen.push(got.expect("closure called"));
+        let mut k = Keep(vec![]);
+        seen.push(iface.via_sink(&mut k, x.clone()));
+        seen.extend(k.0);
+        let b = iface.make_fn();
+        seen.push(b(x.clone()));
+        seen
+    };
+    let direct = run(&V1Impl);
+    match catch_unwind(AssertUnwindSafe(|| AbiConnection::<dyn V1Iface>::from_boxed_trait(Box::new(V1Impl)).map(|c| run(&c)))) {
+        Ok(Ok(through)) => {
+            if through != direct {
+                fails.push(json!({"check": "c09.payload_through_closure_or_object", "detail": format!("through the ABI {:?}, directly {:?}", through, direct)}));
+            }
+        }
+        Ok(Err(e)) => fails.push(json!({"check": "c09.v1.connect", "detail": format!("{}", e)})),
+        Err(p) => fails.push(json!({"check": "c09.v1.panic", "detail": vcommon::panic_msg(p)})),
+    }
+}
+
 pub fn wide() -> Vec<Value> {
     let mut fails = vec![];
+    v1_payloads(&mut fails);
     let r = catch_unwind(AssertUnwindSafe(|| AbiConnection::<dyn ManyArgs>::from_boxed_trait(Box::new(ManyArgsImpl))));
     match r {
         Ok(Ok(c)) => {
